@@ -223,21 +223,16 @@ def rowOp (σ : DbModel) (db : Database) (tx : Txn) (op : Operation) (rop : RowO
         let tx2 := if isDelete then { tx1 with deleted := tx1.deleted ++ rows.map (·.1) } else tx1
         .ok ({ count := rows.length }, tx2, step)
 
-/-- an unset set or map and an empty one are the same value for `wait` -/
-def waitNorm : Value → Value
-  | .set [] => .set []
-  | .map [] => .map []
-  | v => v
 
 /-- does the selected row agree with the expected row on those of `cols` that the
-    expected row provides (`Transaction.waitRowsEqual`, as repaired) -/
+    expected row provides (`Transaction.waitRowsEqual`, as repaired: D16, D66) -/
 def waitAgree (cols : List String) (provided : OvsRow) (e : Model) (p : UUID × Row) : Bool :=
   cols.all (fun col =>
     match get? provided col with
     | none => true
     | some _ =>
       match e.field col, (Model.mk p.1 p.2).field col with
-      | some x, some y => waitNorm x == waitNorm y
+      | some x, some y => valueEqB x y     -- `ConditionEqual.Evaluate`: sets as sets, maps as maps
       | _, _ => true)
 
 /-- the selected rows and the expected rows are the same set of rows -/
